@@ -195,6 +195,36 @@ def job_busy(j):
     return n, res
 
 
+def job_fragmented_polls(j):
+    """Every answer of the poll arrives in two pieces (UDP datagrams / TCP segments, three split points): what the sensors
+    are decoded from is the whole answer."""
+    cfg, = j
+    out = {}
+    n = 0
+    for transport in ('udp', 'tcp'):
+        for at in (9, 20, 60):
+            r = make_rig(cfg, transport)
+            r.dev.fragment_at = at
+            if r.call(r.inv.read_device_info)[0] != 'ok':
+                continue
+            with Probe() as p:
+                r.call(r.inv.read_runtime_data)
+                r.call(r.inv.read_runtime_data)
+            n += 2
+            for sid, pos, size, got, win in p.short:
+                if ('C14', f'reads-inside-answer/{cfg["family"]}/{sid}') in _known():
+                    continue
+                key = f'reads-inside-answer/{cfg["family"]}/{transport}/answers-in-two-pieces'
+                out.setdefault(key, []).append(dict(key=key, clause='reads-inside-answer', replay=dict(cfg=cfg, transport=transport, fragmented=True),
+                                                    detail=dict(cause=f'{sid}: read {size} bytes at payload position {pos}, got {got} (window {win[0]}+{win[1]}); '
+                                                                      f'every answer split after {at} bytes')))
+    res = []
+    for key, lst in out.items():
+        lst[0]['n'] = len(lst)
+        res.append(lst[0])
+    return n, res
+
+
 def job_boundary_contents(j):
     """Polls with every register at a boundary word (0x7FFF, 0x8000, 0x8001, 0xFFFF, 0, 1): what a sensor - a calculated
     one included - reads does not reach past the answer it is decoded from because of a value it found there."""
@@ -359,6 +389,10 @@ def run(tier, seed, rep):
         for v in res:
             v['key'] += '/firmware-version-sweep' if ('C14', v['key']) not in _known() else ''
         rep.add_many(res)
+    nfrag = 0
+    for n, res in pmap(job_fragmented_polls, [(c,) for c in busy_cfgs if not c['refused']]):
+        nfrag += n
+        rep.add_many(res)
     nbound = 0
     for n, res in pmap(job_boundary_contents, [(c,) for c in busy_cfgs]):
         nbound += n
@@ -396,7 +430,7 @@ def run(tier, seed, rep):
         states |= sts
         rep.add_many(res)
     cov = dict(api_session_histories=_api['histories'], api_session_states=_api['states'], states=len(states), transitions=reads, executions=total, traces_validated_against_impl=total,
-               configurations=total, dynamic_histories=ndyn, polls_with_one_request_rejected=nbusy, overlapping_poll_pairs=novl, single_reads_probed=nsingle, polls_with_boundary_contents=nbound, instrumented_reads=reads, exhaustive=True,
+               configurations=total, dynamic_histories=ndyn, polls_with_one_request_rejected=nbusy, overlapping_poll_pairs=novl, single_reads_probed=nsingle, polls_with_boundary_contents=nbound, polls_with_split_answers=nfrag, instrumented_reads=reads, exhaustive=True,
                bound='every model configuration of C15 (tags x rated power x refused subsets x battery) x every sensor of '
                      'every block; each ProtocolResponse.read is observed (position, requested, returned) and cross-checked '
                      'with the static sensor-span-versus-request-window computation',
@@ -416,6 +450,9 @@ def replay(r):
         return out
     cfg = r['cfg']
     cfg['refused'] = tuple(cfg['refused'])
+    if r.get('fragmented'):
+        n, res = job_fragmented_polls((cfg,))
+        return dict(polls=n, violations=[('reads-inside-answer', v['key']) for v in res])
     if r.get('boundary'):
         n, res = job_boundary_contents((cfg,))
         return dict(polls=n, violations=[('reads-inside-answer', v['key']) for v in res])
